@@ -1,4 +1,5 @@
 """C02 — no lost wake-up; enqueued work eventually runs."""
+import sys
 import vlib
 from vlib import diff_tie, Finding
 from props.common import BASE_TRUSTED
@@ -137,6 +138,9 @@ def run(ctx):
         runs.append((["mt", 1 + r % 6, ctx.seed * 100 + r, ctx.scale(150, 1500)], "LOST", "concurrent_monitor::wait / notify_all with real threads and sleep_nodes, flag set before notify"))
     for r in range(ctx.scale(2, 20)):
         runs.append((["enq", [2, 4, 16][r % 3], ctx.scale(40, 400)], "NOTRUN", "task_arena::enqueue into an arena in which nobody waits"))
+    for r in range(ctx.scale(6, 30)):
+        runs.append((["enqprio", 1 + r % 2, r % 3, (r // 3) % 2], "NOTRUN", "task_arena::enqueue into a normal-priority arena in which nobody waits, while an arena of %s priority has worker demand (%s), max_allowed_parallelism = %d" % (
+            ["high", "normal", "low"][r % 3], ["a thread busy inside execute() with spawned tasks", "left over from a finished parallel_for"][(r // 3) % 2], 1 + r % 2)))
     for r in range(ctx.scale(6, 60)):
         runs.append((["bq", 1 + r % 3, 1 + r % 2, 2 + r % 2, ctx.seed * 100 + r], "BADITEMS", "concurrent_bounded_queue: blocked pushes, abort() (holes), later blocked pushes, pops: every producer must be woken when its slot is free"))
     ctx.rules.append("monitor-mt / arena-enqueue / bounded-queue wake-up (oracle only): real threads; every waiter returns (watchdog), every enqueued task runs within 2 s without any waiting call")
@@ -150,6 +154,14 @@ def run(ctx):
             if bad >= 3:
                 break
     ctx.ties.append({"name": "monitor-mt / arena-enqueue (oracle only)", "cases": len(runs), "disagreements": bad})
+    # the mandatory worker at the level of the market's allotment (model: AllotModel, theorem mandatory_worker_is_granted): with soft limit 0 an arena with enqueued work gets the one worker
+    from props import c16
+    aexe, err = ctx.build_driver("drv_allot", libs=[lib], extra=["-D__TBB_BUILD"])
+    if err:
+        return ctx.broken("drv_allot build", err)
+    acases = [c for c in c16.gen(ctx, ctx.scale(4000, 60000)) if c[0] == 0 or any(c[k] == 1 and c[k + 1] == 0 for k in range(2 + 2 * c[1], len(c) - 3, 4))]
+    ctx.rules.append("allot-mandatory (oracle only): the real market object with 1-5 arenas of mixed priorities under soft limit 0: whenever an arena has enqueued work exactly one worker is granted, to such an arena")
+    vlib.oracle_tie(ctx, "allot-mandatory", aexe, [], acases, lambda c, toks: c16.oracle(c, toks, liveness=True), describe=c16.describe, bucket=lambda c: "allot-mandatory arenas=%d" % c[1], timeout=900)
 
 
 def replay(ctx, rep):
